@@ -78,6 +78,20 @@ def solve_for_symbol(lhs, rhs):
     return s, -q / p
 
 
+def solve_all(lhs, rhs):
+    """every (symbol id, value) with lhs == rhs: the affine case, and |affine| == value (both signs)"""
+    one = solve_for_symbol(lhs, rhs)
+    if one is not None:
+        return [one]
+    for a_, b_ in ((lhs, rhs), (rhs, lhs)):
+        at = _single_atom(a_) if isinstance(a_, Rat) else None
+        if at is not None and at.kind == 'fn' and at.name == 'abs' and isinstance(at.args[0], Rat):
+            sols = [solve_for_symbol(at.args[0], b_), solve_for_symbol(at.args[0], -b_)]
+            if all(x is not None for x in sols):
+                return sols
+    return []
+
+
 def forward_rules(repo, rep):
     f = repo.func('geodepy.convert', 'llh2xyz')
     rep.analysed(f)
@@ -104,23 +118,37 @@ def forward_rules(repo, rep):
                 continue
             seen.add(a.id)
             n_special += 1
-            sol = solve_for_symbol(c.args[0], c.args[1])
+            sols = solve_all(c.args[0], c.args[1])
             key = 'R-SIBLING::geodepy/convert.py::llh2xyz::special-branch#%d' % n_special
             special, gen = (a.args[1], a.args[2]) if c.name == 'eq' else (a.args[2], a.args[1])
-            if sol is None:
+            if not sols:
                 rep.undecided('R-SIBLING', key, w, 'branch condition %s is not <one input> == <value>' % alg.fmt(a.args[0]))
                 continue
-            sid, value = sol
-            gen_at = alg.subst(gen, {sid: value})
-            r = alg.decide_equal(special, gen_at)
-            nm = alg.TABLE.atoms[sid].name
-            if r == 'equal':
-                rep.holds('R-SIBLING', key, w, 'the branch for %s == %s equals the general formula at that value' % (nm, alg.fmt(value)))
-            elif r == 'different':
-                rep.violated('R-SIBLING', key, w, 'the special branch taken when %s == %s does not agree with the general branch evaluated there' % (nm, alg.fmt(value)),
-                             expected=show(gen_at, 3, 300), actual=show(special, 3, 300))
-            else:
-                rep.undecided('R-SIBLING', key, w, 'special branch for %s == %s: not decided' % (nm, alg.fmt(value)))
+            for k_, (sid, value) in enumerate(sols):
+                key_ = key if len(sols) == 1 else key + ('+' if k_ == 0 else '-')
+                gen_at = alg.subst(gen, {sid: value})
+                spec_at = alg.subst(special, {sid: value})
+                r = alg.decide_equal(spec_at, gen_at)
+                nm = alg.TABLE.atoms[sid].name
+                if r == 'equal':
+                    rep.holds('R-SIBLING', key_, w, 'the branch for %s == %s equals the general formula at that value' % (nm, alg.fmt(value)))
+                elif r == 'different':
+                    rep.violated('R-SIBLING', key_, w, 'the special branch taken when %s == %s does not agree with the general branch evaluated there' % (nm, alg.fmt(value)),
+                                 expected=show(gen_at, 3, 300), actual=show(spec_at, 3, 300))
+                else:
+                    # not decided exactly (a root of a perfect square, ...): look for a point where the two take different values
+                    from ..symcheck import _DefaultRanges
+                    try:
+                        wit = alg.numeric_witness(spec_at, gen_at, _DefaultRanges(), trials=8, rel=1e-9)
+                    except Exception:
+                        wit = None
+                    if wit is not None:
+                        pt, va, vb = wit
+                        rep.violated('R-SIBLING', key_, w, 'the special branch taken when %s == %s does not agree with the general branch evaluated there: e.g. at %s it gives %.10g where the '
+                                     'general formula gives %.10g' % (nm, alg.fmt(value), ', '.join('%s=%.5g' % kv for kv in sorted(pt.items())[:5]), va.real, vb.real),
+                                     expected=show(gen_at, 3, 300), actual=show(spec_at, 3, 300))
+                    else:
+                        rep.undecided('R-SIBLING', key_, w, 'special branch for %s == %s: not decided exactly; no differing sample point found' % (nm, alg.fmt(value)))
     # the general branch (special-value conditions assumed false) against the closed form
     for i, comp in enumerate('xyz'):
         v = val.items[i]
